@@ -22,9 +22,9 @@ DEFAULT_PROFILE: Dict[str, Any] = {
     "p_cb": 0.5,          # probability a request carries an end / cancel callback
     "p_cb_async": 0.5,
     "p_cb_wait": 0.4,
-    "p_cb_raise": 0.0,
-    "p_worker_raise": 0.0,
-    "p_callfault": 0.0,
+    "p_cb_raise": 0.06,
+    "p_worker_raise": 0.06,
+    "p_callfault": 0.05,
     "p_plain": 0.1,
     "p_embedded": 0.15,
     "p_gname": 0.2,
@@ -103,6 +103,7 @@ def gen_cb(d: D, prof: dict, depth: int) -> Optional[dict]:
             cb["yield"] = d.i(1, 2)
     if d.p(prof["p_cb_raise"]):
         cb["raise"] = True
+        cb["fault_kind"] = d.i(0, 4)
     r = d.i(0, 99)
     if r < 12:
         cb["partial"] = True
@@ -145,6 +146,8 @@ def gen_worker(d: D, prof: dict, depth: int, n_hint: int) -> dict:
     if d.p(prof["p_callfault"]) and n_hint > 0:
         ws["callfault"] = sorted({d.i(0, max(0, n_hint - 1)) for _ in range(d.i(1, 2))})
     ws["fname"] = d.pick(prof["fnames"])
+    if "ends" in ws or "callfault" in ws:
+        ws["fault_kind"] = d.i(0, 4)
     if d.p(0.08):
         ws["partial"] = True
     if depth == 0 and d.p(prof["p_embedded"] * 0.5):
@@ -178,6 +181,7 @@ def gen_spawn(d: D, prof: dict, depth: int, op: Optional[dict] = None) -> dict:
             op["nc"] = d.i(1, prof["max_nc"])
         if d.p(prof.get("p_iter_raise", 0.0)) and op["n"]:
             op["iter_raise_at"] = d.i(0, op["n"] - 1)
+            op["fault_kind"] = d.i(0, 4)
         if d.p(0.1):
             op["as_list"] = True
         elif depth == 0 and d.p(prof["p_embedded"] * 0.5) and op["n"]:
@@ -235,7 +239,7 @@ def gen_op(d: D, prof: dict, name: str, depth: int = 0) -> dict:
         elif r == 1:
             op["default_re"] = True
     elif name == "set_size":
-        op["v"] = d.pick(prof.get("new_sizes", [0, 1, 2, 3, 4, 5, None, -1, -2]))
+        op["v"] = d.pick(prof.get("new_sizes", [0, 1, 2, 3, 4, 5, None, -1, -2, -0.5, -0.25]))
     elif name == "bad_spawn":
         gen_spawn(d, prof, 1, op)
         op["op"] = "bad_spawn"
